@@ -42,6 +42,9 @@ REGRESSION = [
     ("median({9007199254740993, 9007199254740992, 9007199254740994})", "value", "I:9007199254740993"),
     ("median({200!, 1, 2})", "value", "I:2"), ("median({10^400, 10^400+2, 10^400+1})", "out", None),
     ("max({1/3, 0.3333333333333333})", "value", "F:1/3"),
+    ("size(range(1, 10^30, 10^29))", "value", "I:10"), ("max(range(0, 3*10^17 - 1, 10^17)) <= 3*10^17 - 1", "value", "I:1"), ("size(range(0, 3*10^17 - 1, 10^17))", "value", "I:3"),
+    ("size(range(0, 2^60, 2^58))", "value", "I:5"), ("{x : x in 1..2, x in 4..6}", "value", "A:[I:4;I:5]"), ("size({x : x in {}, x in 1..3})", "value", "I:0"),
+    ("a = {3, 1, 2}; {median(a) + x : x in a}", "value", "A:[I:5;I:3;I:4]"),
 ]
 
 
